@@ -1,6 +1,7 @@
 package main
 
 import (
+	"crypto/sha256"
 	"fmt"
 	"sort"
 	"strconv"
@@ -30,7 +31,15 @@ type Op struct {
 	ExE    bool `json:"exe,omitempty"`
 }
 
-func q(b []byte) string { return strconv.Quote(string(b)) }
+// q renders a byte string. Long ones (large-geometry cases write values of tens of kilobytes) are shown as their
+// first bytes plus length and SHA-256 prefix: comparisons of rendered results stay exact, logs stay readable.
+func q(b []byte) string {
+	if len(b) <= 96 {
+		return strconv.Quote(string(b))
+	}
+	h := sha256.Sum256(b)
+	return strconv.Quote(string(b[:24])) + fmt.Sprintf("...(len=%d,sha256=%x)", len(b), h[:8])
+}
 
 func qs(bs [][]byte) string {
 	parts := make([]string, len(bs))
